@@ -1,6 +1,7 @@
 import GeffModel.Proto
 import GeffModel.ReadOnly
-open Lean Geff Geff.Proto Geff.KV
+import GeffModel.MetaHeap
+open Lean Geff Geff.Proto Geff.KV Geff.MetaHeap
 
 /-! Driver for C18.  Request {"op":"open","mode":m,"fmt":0|2|3,"path":[components…],
 "keys":[[k, blob]…],"dirs":[d…]}: the store after `zarr.open_group(store, path=p, mode=m,
@@ -11,6 +12,107 @@ def strList (j : Json) : Except String (List String) := do
   (← j.getArr?).toList.mapM fun x => x.getStr?
 
 def sortStrs (l : List String) : List String := (l.toArray.qsort (· < ·)).toList
+
+/-! second op: {"op":"meta","fn":"add_node"|"add_edge"|"compute"|"write_arrays",
+  "axes": null | [[name, min|null, max|null]…], "node":[[id,dtype,varlen,unit|null]…], "edge":[…],
+  "node_md":[[id,dtype,varlen]…], "edge_md":[…], "have": bool,
+  "data": [[name, "absent"|"empty"| [lo, hi]]…]}
+builds the caller's heap (axis objects, list, two dictionaries, the metadata object), runs the
+function and reports the result object and which of its parts are the *same objects* as the
+argument's. -/
+
+def optStr (j : Json) : Except String (Option String) :=
+  if j.isNull then pure none else do pure (some (← j.getStr?))
+
+def parsePropMds (j : Json) (withUnit : Bool) : Except String (List PropMd) := do
+  (← j.getArr?).toList.mapM fun p => do
+    let q ← p.getArr?
+    if q.size < 3 then throw "prop md: [id, dtype, varlen, unit?]"
+    let u ← (if withUnit && q.size > 3 then optStr q[3]! else pure none)
+    pure ⟨← q[0]!.getStr?, ← q[1]!.getStr?, ← q[2]!.getBool?, u⟩
+
+def optJ (o : Option String) : Json := match o with | none => Json.null | some s => Json.str s
+
+def dictJson (h : Heap) (d : Addr) : Json :=
+  match h[d]? with
+  | some (.propsDict items) => Json.arr (items.map fun kv =>
+      Json.arr #[Json.str kv.1, Json.str kv.2.dtype, Json.bool kv.2.varlength, optJ kv.2.unit]).toArray
+  | _ => Json.null
+
+def axesAddrs (h : Heap) (m : Addr) : Option (List Addr) :=
+  match h[m]? with
+  | some (.geffMeta (some l) _ _ _) => match h[l]? with
+    | some (.axesList items) => some items
+    | _ => none
+  | _ => none
+
+def axesJson (h : Heap) (m : Addr) : Json :=
+  match axesAddrs h m with
+  | none => Json.null
+  | some items => Json.arr (items.map fun a => match h[a]? with
+      | some (.axis nm mn mx) => Json.arr #[Json.str nm, optJ mn, optJ mx]
+      | _ => Json.null).toArray
+
+def handleMeta (j : Json) : Except String Json := do
+  let fn ← (← j.getObjVal? "fn").getStr?
+  let axj ← j.getObjVal? "axes"
+  let axes ← (if axj.isNull then pure none else do
+    let l ← (← axj.getArr?).toList.mapM fun a => do
+      let q ← a.getArr?
+      if q.size != 3 then throw "axis: [name, min, max]"
+      pure (← q[0]!.getStr?, ← optStr q[1]!, ← optStr q[2]!)
+    pure (some l) : Except String (Option (List (String × Option String × Option String))))
+  let node ← parsePropMds (← j.getObjVal? "node") true
+  let edge ← parsePropMds (← j.getObjVal? "edge") true
+  let nodeMd ← parsePropMds (← j.getObjVal? "node_md") false
+  let edgeMd ← parsePropMds (← j.getObjVal? "edge_md") false
+  let have_ ← (← j.getObjVal? "have").getBool?
+  let dataL ← (← (← j.getObjVal? "data").getArr?).toList.mapM fun p => do
+    let q ← p.getArr?
+    if q.size != 2 then throw "data: [name, spec]"
+    let nm ← q[0]!.getStr?
+    let d ← (match q[1]! with
+      | .str "absent" => pure AxisData.absent
+      | .str "empty" => pure AxisData.empty
+      | v => do
+        let r ← v.getArr?
+        if r.size != 2 then throw "range: [lo, hi]"
+        pure (AxisData.range (← r[0]!.getStr?) (← r[1]!.getStr?)) : Except String AxisData)
+    pure (nm, d)
+  let data : String → AxisData := fun nm => match dataL.find? (·.1 == nm) with
+    | some p => p.2
+    | none => .absent
+  -- the caller's heap
+  let axisObjs : List Obj := match axes with
+    | none => []
+    | some l => l.map fun (nm, mn, mx) => Obj.axis nm mn mx
+  let nAx := axisObjs.length
+  let h0 : Heap := axisObjs
+  let (h1, axesRef) : Heap × Option Addr := match axes with
+    | none => (h0, none)
+    | some _ => let (h', l) := alloc h0 (.axesList (List.range nAx)); (h', some l)
+  let (h2, np) := alloc h1 (.propsDict (node.map fun p => (p.identifier, p)))
+  let (h3, ep) := alloc h2 (.propsDict (edge.map fun p => (p.identifier, p)))
+  let (h4, m) := alloc h3 (.geffMeta axesRef np ep true)
+  let (h', res) : Heap × Option Addr := match fn with
+    | "add_node" => let r := addOrUpdatePropsMetadata h4 m nodeMd true; (r.1, some r.2)
+    | "add_edge" => let r := addOrUpdatePropsMetadata h4 m edgeMd false; (r.1, some r.2)
+    | "compute" => computeAndAddAxisMinMax h4 m data
+    | _ => writeArraysMeta h4 m nodeMd edgeMd have_ data
+  let callerKept := decide (h'.take h4.length = h4)
+  match res with
+  | none => return Json.mkObj [("raised", Json.bool true), ("caller_kept", Json.bool callerKept)]
+  | some r =>
+    let (np', ep') : Addr × Addr := match h'[r]? with
+      | some (.geffMeta _ a b _) => (a, b)
+      | _ => (0, 0)
+    let oldAx := (axesAddrs h4 m).getD []
+    let newAx := (axesAddrs h' r).getD []
+    let sameAxes := (newAx.zip oldAx).map fun (a, b) => Json.bool (a == b)
+    return Json.mkObj [("raised", Json.bool false), ("caller_kept", Json.bool callerKept),
+      ("meta_same", Json.bool (r == m)), ("node_dict_same", Json.bool (np' == np)),
+      ("edge_dict_same", Json.bool (ep' == ep)), ("axes_same", Json.arr sameAxes.toArray),
+      ("axes", axesJson h' r), ("node", dictJson h' np'), ("edge", dictJson h' ep')]
 
 def handle (j : Json) : Except String Json := do
   let op ← (← j.getObjVal? "op").getStr?
@@ -28,6 +130,7 @@ def handle (j : Json) : Except String Json := do
     let fs' := run [.openAt mode fmt path] fs
     return Json.mkObj [("keys", Json.arr ((sortStrs (fs'.keys.map (·.1))).map Json.str).toArray),
                        ("dirs", Json.arr ((sortStrs fs'.dirs).map Json.str).toArray)]
+  | "meta" => handleMeta j
   | _ => throw s!"unknown op {op}"
 
 def main : IO Unit := Proto.run handle
